@@ -383,6 +383,26 @@ def lib_dup():
     }
 
 
+def lib_ver2():
+    """four users of one compatibility track: two of them under the same lower name with different
+    exports, one under a higher version, one under that version with build metadata"""
+    return {
+        "name": "ver2",
+        "pkgs": {
+            "q1": {"name": "test:q1", "version": None, "imports": [("ns:p/i@0.2.0", inst(x=fA))], "exports": [("o", fA)]},
+            "q2": {"name": "test:q2", "version": None, "imports": [("ns:p/i@0.2.1", inst(y=fA))], "exports": [("o", fA)]},
+            "q3": {"name": "test:q3", "version": None, "imports": [("ns:p/i@0.2.0", inst(z=fB))], "exports": [("o", fA)]},
+            "q4": {"name": "test:q4", "version": None, "imports": [("ns:p/i@0.2.1+b2", inst(w=fA))], "exports": [("o", fA)]},
+        },
+        "kinds": {"fA": fA},
+        "import_names": ["k"],
+        "export_names": ["e1"],
+        "def_names": [],
+        "valid_names": ["k", "e1"],
+        "deftypes": {},
+    }
+
+
 def lib_wac():
     """C04: packages whose import/export names mix plain names, interface paths with and without
     versions, and ambiguous / unambiguous last segments (see lib/universe_wac.py for the programs)"""
@@ -421,7 +441,7 @@ def lib_wac():
     }
 
 
-LIBS = {"core": lib_core, "ver": lib_ver, "shape": lib_shape, "plug": lib_plug, "det": lib_det, "wac": lib_wac, "dup": lib_dup}
+LIBS = {"core": lib_core, "ver": lib_ver, "shape": lib_shape, "plug": lib_plug, "det": lib_det, "wac": lib_wac, "dup": lib_dup, "ver2": lib_ver2}
 
 
 def emit(lib):
